@@ -26,7 +26,9 @@ MIN_EVENTS = {"statements": 100, "run_return": 100}
 LAST = ["b varchar(10)", "b varchar(10) NOT NULL", "b varchar(10) DEFAULT 'x'", "b int PRIMARY KEY", "b decimal(10,2) UNIQUE", "b int REFERENCES p (k)",
         "b date,\n  PRIMARY KEY (a)", "b int,\n  CONSTRAINT u UNIQUE (a, b)", "b int DEFAULT 5 NOT NULL",
         # a double-quoted literal with an apostrophe inside (an odd number of ' in the statement before the clauses)
-        "b varchar(20) DEFAULT \"o'clock\"", "b varchar(20) DEFAULT \"it's\" NOT NULL"]
+        "b varchar(20) DEFAULT \"o'clock\"", "b varchar(20) DEFAULT \"it's\" NOT NULL",
+        # an empty literal (two quotes in a row) before the clauses
+        "b varchar(10) DEFAULT ''", "b varchar(10) DEFAULT '' NOT NULL"]
 
 
 # SSMS-style body: the key constraint carries its own WITH (...) ON [filegroup]; a table-level ON / WITH after the list must still win
